@@ -365,15 +365,6 @@ ObsInit(d) ==
 OInit == \E d \in BOOLEAN : ObsInit(d)
 OSpec == OInit /\ [][ObsNext]_vars
 
-\* the part of the call set that matters for two observers on one graph
-\* (used with MaxObs = 2, where the full relation is too large to enumerate)
-CopyNext ==
-  \/ GDeleteNode \/ GUnlink \/ GCreateNodeOnEdge
-  \/ DCreateNode \/ DCreateNodeFrom \/ DLink \/ DUnlink \/ DDeleteNode
-  \/ DAssocNode \/ DDissocNode \/ DSetNodeIndex \/ DAddNodeIndex \/ DSetEdgeIndex \/ DAddEdgeIndex
-  \/ Copy \/ Drop
-CSpec == OInit /\ [][CopyNext]_vars
-
 \* ---------------------------------------------------------------- the property (association part)
 OTypeOK == alive \in {{1}, {1, 2}} /\ DOMAIN ob = alive /\ DOMAIN rf = alive
 
@@ -445,6 +436,5 @@ Independent ==
 RaiseKeepsState ==
   [][(out' = "raise") => UNCHANGED <<refvars, viewvars, alive, ob, rf>>]_vars
 
-CONSTANT MaxDepth
-Bound == TLCGet("level") <= MaxDepth      \* optional history-length bound of a configuration
+CONSTANT MaxDepth        \* history-length bound used by ObserverMC.tla (0 = none)
 =============================================================================
